@@ -13,6 +13,8 @@
 #include <string>
 #include <string_view>
 #include <vector>
+#define VERIF_PAINT_NEW 1
+#include "../painted.h"
 
 namespace {
 
@@ -220,6 +222,7 @@ int main() {
     std::unique_ptr<IUni> uni;
     std::string line;
     while (std::getline(std::cin, line)) {
+        verif::paintLine(line);   // painted `new` (harness/painted.h)
         std::istringstream is(line);
         std::vector<std::string> t;
         std::string w;
